@@ -29,7 +29,7 @@ def tier_params(tier):
     if tier == "quick":
         return dict(models=[("orders", 1, 2, 1, 3), ("pools", 1, 0, 1, 3), ("orders", 2, 2, 1, 3)], mc_timeout=420,
                     budget=1000, depth=7, runs=24, steps=120, trace_timeout=900)
-    return dict(models=[("orders", 1, 3, 1, 4), ("pools", 1, 0, 2, 3), ("orders", 2, 3, 1, 3)], mc_timeout=1500,
+    return dict(models=[("orders", 1, 3, 1, 4), ("pools", 1, 0, 1, 4), ("orders", 2, 3, 1, 3)], mc_timeout=1500,
                 budget=5000, depth=8, runs=120, steps=220, trace_timeout=3000)
 
 
